@@ -11,7 +11,7 @@ pub fn def() -> PropDef {
         run,
         shrink: Shrink::Ops,
         render: mc::render,
-        rule: "explicit-state BFS over real Builder objects: every call history up to depth D over the main alphabet (53 calls: reserve_capacity, set_length(Some/None), every payload kind, batches, oversized values) from 7 constructors, over the boundary alphabet (slices of 65535 / 65519 / 16 / 1 bytes, big TLVs, set_length) and over a 10-call core alphabet to a greater depth; in every state build() is called on a replayed copy and bytes 14..16 are compared with the model (explicit length in force, else bytes following the fixed part; must fail above 65535 or on an oversized single value); non-trivial = history contains at least one write; distinct = hash of the history",
+        rule: "explicit-state BFS over real Builder objects: every call history up to depth D over the main alphabet (54 calls: reserve_capacity, set_length(Some/None), every payload kind, batches, oversized values) from 7 constructors, over the boundary alphabet (slices of 65535 / 65519 / 16 / 1 bytes, big TLVs, set_length) and over a 10-call core alphabet to a greater depth; in every state build() is called on a replayed copy and bytes 14..16 are compared with the model (explicit length in force, else bytes following the fixed part; must fail above 65535 or on an oversized single value); non-trivial = history contains at least one write; distinct = hash of the history",
         assumptions: &["a write attempted when the buffer already holds more than 16+65535 bytes may be refused or accepted (the properties do not say); a refusal of a value that fits is recorded as an advisory note, not a verdict"],
     }
 }
